@@ -29,6 +29,38 @@ REQUIRED = ["Xmp.PlayBuffer.C12_concat", "Xmp.PlayBuffer.C12_concat_unbounded", 
             "Xmp.PlayBuffer.C12_post_of_seqstream", "Xmp.PlayBuffer.C12_concat_seqstream"]
 
 
+def tempo_modules(ck, dirname, count):
+    """Small M.K. modules whose tempo (and with it the frame size) changes on almost every row: speed 1 on row 0,
+    then Fxx with xx >= 0x20 drawn at random; a short looped sample so that the frames are not silent."""
+    import struct
+    os.makedirs(dirname, exist_ok=True)
+    out = []
+    for k in range(count):
+        rng = ck.rng
+        b = bytearray(b"tempo changes".ljust(20, b"\0"))
+        b += b"s".ljust(22, b"\0") + struct.pack(">HBBHH", 32, 0, 64, 0, 32)
+        for i in range(30):
+            b += bytes(22) + struct.pack(">HBBHH", 0, 0, 0, 0, 1)
+        npat = rng.randint(1, 2)
+        b += bytes([npat, 0x7f]) + bytes(range(npat)).ljust(128, b"\0") + b"M.K."
+        for p in range(npat):
+            for r in range(64):
+                for c in range(4):
+                    if c == 0 and r == 0 and p == 0:
+                        b += bytes([0x01, 0xac, 0x1f, 0x01])           # note, sample 1, F01 (speed 1)
+                    elif c == 1 and rng.random() < 0.7:
+                        b += bytes([0, 0, 0x0f, rng.choice([0x20, 0x21, 0x30, 0x40, 0x7d, 0x96, 0xc8, 0xff, rng.randint(0x20, 0xff)])])
+                    elif c == 2 and rng.random() < 0.15:
+                        b += bytes([0x01, 0x1d, 0x10, 0x00])
+                    else:
+                        b += bytes(4)
+        b += bytes((i * 9) & 0xff for i in range(64))
+        path = os.path.join(dirname, "tempo%02d.mod" % k)
+        open(path, "wb").write(bytes(b))
+        out.append(path)
+    return out
+
+
 def pick_modules(ck, n):
     files = [f for f in vlib.corpus_files() if os.path.getsize(f) < 400000]
     # the three repo test modules always; the rest sampled by seed
@@ -91,6 +123,10 @@ def run(ck):
     per = 16 if quick else 400
     maxhex = 24000 if quick else 60000
     mods = pick_modules(ck, 40 if quick else 250)
+    # frame size must follow the tempo: modules that change tempo on almost every frame (listed several times
+    # so that about a quarter of the cases use them)
+    tmods = tempo_modules(ck, os.path.join(vlib.OUT, "c12-tempo-%d" % ck.seed), 4 if quick else 12)
+    mods = mods + tmods * max(1, len(mods) // (3 * len(tmods)))
     shards = [(exe, ck.seed * 7919 + i, per, maxhex, mods) for i in range(nshards)]
     results = vlib.pmap(run_shard, shards)
     stats = {"calls": 0, "ret_-1": 0, "zero_fill_end": 0, "resets": 0, "stops": 0, "boundary_crossing_calls": 0,
